@@ -11,7 +11,7 @@
 From CV Require Import Model.Base Check.Verdict.
 
 Record wrec := mk_wrec { w_sc : N; w_att : N; w_which : N; w_wid : N; w_cnt : N }.
-Record wcase09 := mk_wcase09 { w9_recs : list wrec; w9_terminated : bool }.
+Record wcase09 := mk_wcase09 { w9_recs : list wrec; w9_terminated : bool; w9_after : bool (* an after hook is installed *) }.
 
 (* per attempt seen so far: (scenario, attempt, instance, mutations so far) *)
 Definition went := (N * N * N * N)%type.
@@ -35,6 +35,20 @@ Fixpoint worlds_walk (seen : list went) (l : list wrec) : bool :=
                    && worlds_walk ((w_sc r, w_att r, w_wid r, 1) :: seen) t
          end
   end.
-Definition worlds_ok (c : wcase09) : bool := worlds_walk [] (w9_recs c).
+(* "the after hook runs exactly once after the last executed step", for every attempt IN FLIGHT TOGETHER WITH OTHERS: once the
+   run has ended, every attempt that entered user code (a before hook or a step) has exactly one after-hook call, and it is
+   the last callback of that attempt — an attempt abandoned because another scenario failed for good never gets one *)
+Definition same_att (a b : wrec) : bool := (w_sc a =? w_sc b) && (w_att a =? w_att b).
+Fixpoint after_once (l : list wrec) : bool :=
+  match l with
+  | [] => true
+  | r :: t =>
+    (if w_which r =? 2 then negb (existsb (same_att r) t)                       (* nothing of the attempt after its after hook *)
+     else N.of_nat (length (filter (fun x => same_att r x && (w_which x =? 2)) t)) =? 1)
+    && after_once t
+  end.
+Definition worlds_ok (c : wcase09) : bool :=
+  worlds_walk [] (w9_recs c)
+  && (negb (w9_terminated c && w9_after c) || after_once (w9_recs c)).
 
 Definition verdict (id : N) (c : wcase09) : list (list N) := [vrow id 1 (judge (worlds_ok c) true 0)].
